@@ -623,7 +623,7 @@ def logic_of(c) -> str:
 
 class Tables:
     def __init__(self):
-        self.ext = xinfer.extract()
+        self.ext = ensure_fresh_tables()
         self.vocab = set(xinfer.vocabulary(self.ext['fsm']))
         self.reg = Registry()
         from beartype.bite._infermain import BeartypeInferHintContainerRecursion
@@ -1251,6 +1251,29 @@ def explore(ck: Check, n: int, seed: int, depth: int = 3) -> Explore:
     return ex
 
 
+def ensure_fresh_tables() -> dict:
+    """Re-extract the tables and make sure the COMPILED Lean model was built from exactly them.
+    lake decides by the hash of the source it read BEFORE compiling; when two checks against different
+    beartype copies once rewrote Extracted/Infer.lean concurrently, the trace recorded one content and the
+    olean held the other, and lake kept replaying that artifact. The driver therefore reports the
+    fingerprint compiled into the model; on a mismatch the artifacts of Extracted.Infer are removed and
+    rebuilt (dependants follow), and a second mismatch is an error."""
+    from .. import common
+    t = xinfer.extract()
+    for attempt in (0, 1):
+        common._DRIVER_BUILT.pop('C20', None)
+        got = parse_sexp(lean_driver(['(c20 tables)'], 'C20')[0])
+        if got == ['ok', t['fingerprint']]:
+            return t
+        for ext in ('olean', 'ilean', 'trace', 'olean.hash', 'ilean.hash'):
+            f = LEAN / '.lake/build/lib/lean/BearVerif/Extracted' / f'Infer.{ext}'
+            if f.exists():
+                f.unlink()
+        for f in (LEAN / '.lake/build/ir/BearVerif/Extracted').glob('Infer.*'):
+            f.unlink()
+    raise RuntimeError(f'compiled Extracted/Infer.lean reports tables {got}, extracted {t["fingerprint"]}')
+
+
 def replay(data: dict) -> int:
     breal.install_draw_control()
     spec = data['spec']
@@ -1279,7 +1302,7 @@ def replay(data: dict) -> int:
 
 def main(ck: Check) -> int:
     quick = ck.tier == 'quick'
-    xinfer.extract()
+    ensure_fresh_tables()
     proof = ck.prove(MODULE, PROP_FILE)
     ex = explore(ck, n=1500 if quick else 25000, seed=ck.seed, depth=3 if quick else 4)
     ck.decide(proof, ex, deep_search=lambda: explore(ck, n=3000, seed=ck.seed + 101, depth=4))
